@@ -487,6 +487,11 @@ class FitBase(FileIOMixin, object):
             raise ValueError("Fit data and cost function are not compatible: %s" % _reason)
         self._set_new_parametric_model()
         self._param_model._on_error_change_callback = self._on_error_change
+        # the new data container comes with its own errors: everything calculated from the old ones is outdated
+        for _error_name in self._BASIC_ERROR_NAMES:
+            self._nexus.get(_error_name).mark_for_update()
+        if self._implicit_no_errors and self.has_errors:
+            self._on_error_change()
 
     @property
     def data_error(self):
